@@ -263,10 +263,16 @@ func genName(r *hx.Rng, dir bool) []byte {
 	}
 	if n > 1 && r.Intn(5) == 0 {
 		// bytes a reader might be tempted to normalise: names are kept byte for byte (backslash of old .NET packers, upper
-		// case, blank, colon, a byte that is not UTF-8, a leading slash, dot segments)
-		specials := []byte{'\\', '\\', 'A', ' ', ':', 0xe9, '/', '.'}
+		// case, blank, colon, a non-ASCII character, a leading slash, dot segments)
+		specials := []byte{'\\', '\\', 'A', ' ', ':', 0xc3, '/', '.'}
 		i, c := r.Intn(n), specials[r.Intn(len(specials))]
-		if !(c == '/' && i == n-1) { // a trailing slash would turn a member with data into a directory entry
+		switch {
+		case c == '/' && i == n-1: // a trailing slash would turn a member with data into a directory entry
+		case c == 0xc3: // a two-byte UTF-8 character (valid whether or not the language-encoding flag is set)
+			if i+1 < n {
+				b[i], b[i+1] = 0xc3, 0xa9
+			}
+		default:
 			b[i] = c
 		}
 	}
